@@ -196,7 +196,13 @@ def list_subqueries(segment: BaseSegment) -> list[SubQueryTuple]:
                     if is_subquery(bracketed):
                         subquery.append(SubQueryTuple(bracketed, None))
             elif function := select_clause_element.get_child("function"):
-                for bracketed in function.recursive_crawl("bracketed"):
+                for bracketed in function.recursive_crawl(
+                    "bracketed",
+                    no_recursive_seg_type=[
+                        "select_statement",
+                        "with_compound_statement",
+                    ],
+                ):
                     if is_subquery(bracketed):
                         subquery.append(SubQueryTuple(bracketed, None))
             # a subquery anywhere else in the element: ELSE branch, function argument or operand inside an expression
@@ -206,7 +212,8 @@ def list_subqueries(segment: BaseSegment) -> list[SubQueryTuple]:
                 if is_bracketed_subquery(sq.parenthesis)
             }
             for bracketed in select_clause_element.recursive_crawl(
-                "bracketed", no_recursive_seg_type="select_statement"
+                "bracketed",
+                no_recursive_seg_type=["select_statement", "with_compound_statement"],
             ):
                 if (
                     is_bracketed_subquery(bracketed)
